@@ -49,6 +49,10 @@ def run_case(rng, idx, tier):
         A = np.asarray(b["axes"])
         frames.append(np.column_stack([A[0], A[1], np.cross(A[0], A[1])]))
     dirs = gen.rand_dirs(rng, ndirs, frames)
+    extra_dirs = gen.mesh_vertex_dirs(spec)
+    if extra_dirs:
+        dirs[3:3] = extra_dirs
+        dirs[-1] = extra_dirs[0]
     viol = []; worst = {"membership/L": 0.0, "extremality/L": 0.0}
     ev = {"support_calls": 0, "first_vertex_calls": 0, "pose_updates": 0}
     L = O.scene_L([orc])
@@ -73,7 +77,7 @@ def run_case(rng, idx, tier):
 
     cur = orc
     for i, d in enumerate(dirs):
-        if kind == "mesh" and i == ndirs // 2:
+        if kind == "mesh" and i == len(dirs) // 2:
             # history clause: pose update in the middle, cached vertex stays
             G = O.pose(gen.rand_rot(rng), rng.normal(size=3))
             spec2 = O.moved(spec, G)
